@@ -851,5 +851,9 @@ PROPS["C14"]["explanation"] += " (DELACC) a routine that removes an instance fro
 PROPS["C10"]["rules"] = PROPS["C10"]["rules"] + [rules_sd.rule_generated_name_whole]
 PROPS["C10"]["explanation"] += " (GENNAME) a dimension name is taken for a generated fakeDim<N> only on a test of the whole name."
 
+for _p in ("C16", "C13"):
+    PROPS[_p]["rules"] = PROPS[_p]["rules"] + [rules_handles.rule_start_access_keeps_record]
+    PROPS[_p]["explanation"] += " (STACCOWN) no start-access routine of a special-element kind releases the access record it was handed."
+
 NOT_APPLICABLE = {}
 
